@@ -203,6 +203,7 @@ class RankEnv:
             m.register_forward_pre_hook(self._cap_a(name))
             m.register_full_backward_hook(self._cap_g(name))
         self.hp_objs: dict[str, Any] = {}
+        self.ext = hpmod.External()
         kw = self._kfac_kwargs()
         self.construct_error: str | None = None
         with warnings.catch_warnings(record=True) as wl:
@@ -248,7 +249,7 @@ class RankEnv:
             if spec.get('c', 0) is None and 'c' in spec:
                 kw[name] = None
                 continue
-            v = hpmod.build(name, spec)
+            v = hpmod.build(name, spec, self.ext)
             if isinstance(v, hpmod.Recording):
                 self.hp_objs[name] = v
             kw[name] = v
@@ -406,6 +407,13 @@ class RankEnv:
         it = op['it']
         acc = plan['acc']
         rec['it'] = it
+        # public hyper-parameter properties may be read at any time (metric
+        # logging); here: after the previous step, before the external state
+        # (optimizer lr, ...) moves on to this iteration
+        if self.mon.get('read_hps'):
+            rec['hp_read'] = {k: getattr(pre, k) for k in hpmod.HP_NAMES}
+            self.sim.probe('hp_properties_read_between_steps')
+        self.ext.it = it
         rec['steps_before'] = pre.steps
         log0 = len(self.sim.log)
         scaling = bool(plan.get('loss_scaling'))
@@ -422,6 +430,17 @@ class RankEnv:
         rec['caps'] = self.caps
         self.capturing = True
         vranks = range(self.emulate) if self.emulate else [self.rank]
+        if op.get('extra_fwd') and not plan['hook']:
+            # a training-mode forward without backward (pseudo-labelling):
+            # one more input sample for A than output gradients for G
+            for vr in vranks:
+                x, _ = models.batch(plan['model'], plan['data_seed'], it,
+                                    vr, 99)
+                with torch.no_grad():
+                    models.forward(model, plan['model'], x)
+                    if self.twin is not None:
+                        models.forward(self.twin, plan['model'], x)
+            self.sim.probe('forward_only_pass')
         unscaled: dict[int, torch.Tensor] = {}
         scales: list[float] = []
         for vr in vranks:
